@@ -609,7 +609,7 @@ def check(ctx, rep):
              "the directory handler cache an empty listing under the directory's own cache file: later requests would depend on it)", floor=3)
     rep.rule("R03g", "status lines echo request text only after line breaks were collapsed", floor=2)
     rep.rule("R03h", "a Gopher+ `+N` status line announces the number of bytes that follow: transforming handlers leave the size unset, menus use the unknown-length marker", floor=5)
-    rep.rule("R03i", "partial operations on text read from content files (link files, gophermaps, sidecars): index, unpack, int() are guarded", floor=8)
+    rep.rule("R03i", "partial operations on text read from content files (link files, gophermaps, sidecars): index, unpack, int() are guarded", floor=4)
     rep.rule("R03e", "mailbox constructors (fail with mailbox.Error, not OSError) are guarded or converted", floor=2)
     rep.assume("served content (gophermaps, link files, mailboxes, archives) is well formed: partial operations on file content are not tracked")
 
